@@ -50,7 +50,7 @@ func units(thorough bool) []unit {
 		svc = append(svc, unit(fmt.Sprintf("svc:%d:%d", k, shards)))
 		prod = append(prod, unit(fmt.Sprintf("prod:fs:%d:%d", k, shards)), unit(fmt.Sprintf("prod:bof:%d:%d", k, shards)))
 	}
-	us = append(us, "shot")
+	us = append(us, "shot", "fault")
 	for i := 0; i < len(hist) || i < len(svc) || i < len(prod); i++ {
 		for _, l := range [][]unit{hist, svc, prod} {
 			if i < len(l) {
@@ -169,6 +169,8 @@ func worker(r *ev.Run, u unit) {
 	}
 	atoi := func(s string) int { n, _ := strconv.Atoi(s); return n }
 	switch f[0] {
+	case "fault":
+		runWriteFault(r, w)
 	case "prod":
 		k, K := atoi(f[2]), atoi(f[3])
 		for i, n := range fileNames(maxSeg) {
